@@ -149,6 +149,7 @@ SepMarks(e)       == IF e = "" THEN <<>> ELSE <<(IF e = ";" THEN TS(";") ELSE TL
 (* a ";" or "&" at top level is not followed by a linebreak *)
 TopSep(nt, e)     == IF e = "" THEN <<>> ELSE <<(IF nt.top THEN T(e) ELSE IF e = ";" THEN TS(";") ELSE TL("&")), M("sep:" \o e)>>
 
+RECURSIVE Alts(_)
 Alts(nt) ==
   CASE nt.n = "prog" ->
          << A(0, <<M("ln["), NT("list", 0, TRUE, FALSE, FALSE, ""),  M("]ln"), NLF>>),
@@ -181,6 +182,18 @@ Alts(nt) ==
             A(1, <<M("ln["), M("ao["), M("pl["), M("c["), TL("while"), M("while["), M("cond["), M("ln["), M("ao["), M("pl[")>> \o Cat \o <<H, M("]c"), M("]pl"), TS(";"), M("sep:;"), M("]ao"), M("]ln"), M("]cond"),
                    TL("do"), M("do["), M("ln["), M("ao["), M("pl[")>> \o Cat \o <<H, M("]c"), M("]pl"), TS(";"), M("sep:;"), M("]ao"), M("]ln"), M("]do"), T("done"), M("]while"), M("]c"), M("]pl"), M("]ao"), M("]ln"), NLF>>),
             A(1, <<M("ln["), M("ao["), M("pl["), M("c["), TL("("), M("sub["), M("ln[")>> \o Cmd(<<H>>) \o <<M("]ln"), NL, M("ln[")>> \o Cmd(<<H>>) \o <<M("]ln"), NL, T(")"), M("]sub"), M("]c"), M("]pl"), M("]ao"), M("]ln"), NLF>>),
+            \* a here-document pending on the line when a multi-line compound command starts (whose condition holds another one,
+            \* or is a multi-line brace group): the bodies follow the first newline, in operator order
+            A(1, <<M("ln["), M("ao["), M("pl[")>> \o Cat \o <<H, M("]c"), TL("|"), M("op:|"), M("c["), TL("while"), M("while["), M("cond["), M("ln[")>> \o Cmd(<<H>>) \o <<M("]ln"), NL, M("]cond"),
+                   TL("do"), M("do["), M("ln[")>> \o Simple \o <<TS(";"), M("sep:;"), M("]ao"), M("]ln"), M("]do"), T("done"), M("]while"), M("]c"), M("]pl"), M("]ao"), M("]ln"), NLF>>),
+            A(1, <<M("ln["), M("ao["), M("pl[")>> \o Cat \o <<H, M("]c"), M("]pl"), TL("&&"), M("op:&&"), M("pl["), M("c["), TL("if"), M("if["), M("cond["), M("ln["), M("ao["), M("pl[")>> \o Cat \o <<H, M("]c"), M("]pl"), TS(";"), M("sep:;"), M("]ao"), M("]ln"), M("]cond"),
+                   TL("then"), NLB, M("then["), M("ln[")>> \o Simple \o <<M("]ao"), M("]ln"), NL, M("]then"), T("fi"), M("]if"), M("]c"), M("]pl"), M("]ao"), M("]ln"), NLF>>),
+            A(1, <<M("ln["), M("ao["), M("pl[")>> \o Cat \o <<H, M("]c"), TL("|"), M("op:|"), M("c["), TL("if"), M("if["), M("cond["), M("ln["), M("ao["), M("pl["), M("c["), TL("{"), NLB, M("grp["), M("ln[")>> \o Simple \o <<M("]ao"), M("]ln"), NL,
+                   T("}"), M("]grp"), M("]c"), M("]pl"), TS(";"), M("sep:;"), M("]ao"), M("]ln"), M("]cond"),
+                   TL("then"), NLB, M("then["), M("ln[")>> \o Simple \o <<M("]ao"), M("]ln"), NL, M("]then"), T("fi"), M("]if"), M("]c"), M("]pl"), M("]ao"), M("]ln"), NLF>>),
+            A(1, <<M("ln["), M("ao["), M("pl[")>> \o Cat \o <<H, M("]c"), TL("|"), M("op:|"), M("c["), TL("until"), M("until["), M("cond["), M("ln["), M("ao["), M("pl["), M("c["), TL("{"), NLB, M("grp["), M("ln[")>> \o Simple \o <<M("]ao"), M("]ln"), NL,
+                   T("}"), M("]grp"), M("]c"), M("]pl"), M("]ao"), M("]ln"), NL, M("]cond"),
+                   TL("do"), NLB, M("do["), M("ln[")>> \o Simple \o <<M("]ao"), M("]ln"), NL, M("]do"), T("done"), M("]until"), M("]c"), M("]pl"), M("]ao"), M("]ln"), NLF>>),
             \* inside a command substitution, followed by one outside
             A(1, <<M("ln["), M("ao["), M("pl["), M("c["), M("simple["), T("a")>> \o WLit("a") \o <<M("w["), T("$("), M("cs$["), M("ln["), M("ao["), M("pl[")>> \o CatA
                    \o <<H, M("]c"), M("]pl"), M("]ao"), M("]ln"), NL, T(")"), M("]cs"), M("]w"), M("]simple"), H, M("]c"), M("]pl"), M("]ao"), M("]ln"), NLF>>) >>
@@ -197,6 +210,17 @@ Alts(nt) ==
             [c |-> 0, r |-> <<M("ln[")>> \o Ao(";") \o Ao(";") \o <<M("]ln")>>],
             [c |-> 0, r |-> <<M("ln[")>> \o Ao(";") \o <<M("]ln"), NL>>],
             [c |-> 0, r |-> <<M("ln[")>> \o Ao("") \o <<M("]ln"), NL, M("ln[")>> \o Ao("&") \o <<M("]ln"), NL>>] >>
+    [] nt.n = "pl1" ->      \* pl0 and lists that begin with a subshell / a brace group
+         LET Sep(e) == IF e = "" THEN <<>> ELSE <<(IF e = ";" THEN TS(";") ELSE TL("&")), M("sep:" \o e)>>
+             Ao(e) == <<M("ao["), M("pl["), M("c["), M("simple["), T("a")>> \o WLit("a") \o <<M("]simple"), M("]c"), M("]pl")>> \o Sep(e) \o <<M("]ao")>>
+             SubAo(e) == <<M("ao["), M("pl["), M("c["), TL("("), M("sub["), M("ln[")>> \o Ao("") \o <<M("]ln"), T(")"), M("]sub"), M("]c"), M("]pl")>> \o Sep(e) \o <<M("]ao")>>
+             GrpAo(e) == <<M("ao["), M("pl["), M("c["), TL("{"), M("grp["), M("ln[")>> \o Ao(";") \o <<M("]ln"), T("}"), M("]grp"), M("]c"), M("]pl")>> \o Sep(e) \o <<M("]ao")>>
+         IN
+         Alts([nt EXCEPT !.n = "pl0"]) \o
+         << [c |-> 0, r |-> <<M("ln[")>> \o SubAo(";") \o Ao(";") \o <<M("]ln")>>],
+            [c |-> 0, r |-> <<M("ln[")>> \o SubAo("") \o <<M("]ln"), NL, M("ln[")>> \o Ao("") \o <<M("]ln"), NL, M("ln[")>> \o Ao("") \o <<M("]ln"), NL>>],
+            [c |-> 0, r |-> <<M("ln[")>> \o GrpAo(";") \o <<M("]ln")>>],
+            [c |-> 0, r |-> <<M("ln[")>> \o SubAo("") \o <<M("]ln"), NL>>] >>
     [] nt.n = "pb0" ->      \* the body of a case item in front of ;;
          LET Ao(e) == <<M("ao["), M("pl["), M("c["), M("simple["), T("a")>> \o WLit("a") \o <<M("]simple"), M("]c"), M("]pl")>>
                      \o (IF e = "" THEN <<>> ELSE <<(IF e = ";" THEN TS(";") ELSE TL("&")), M("sep:" \o e)>>) \o <<M("]ao")>>
@@ -211,6 +235,7 @@ Alts(nt) ==
                               TL(";;"), M("op:;;"), M("]item")>>] >>
     [] nt.n = "prprog" ->
          LET L == NT("pl0", 2, FALSE, TRUE, FALSE, "")
+             L1 == NT("pl1", 2, FALSE, TRUE, FALSE, "")
              I == NT("pi0", 2, FALSE, TRUE, FALSE, "")
              Wrap(r) == <<M("ln["), M("ao["), M("pl["), M("c[")>> \o r \o <<M("]c"), M("]pl"), M("]ao"), M("]ln"), NLF>>
              If(e) == <<TL("if"), M("if["), M("cond["), L, M("]cond"), TL("then"), M("then["), L, M("]then")>> \o e \o <<T("fi"), M("]if")>>
@@ -219,15 +244,16 @@ Alts(nt) ==
             A(1, Wrap(<<T("case"), M("case[")>> \o <<T("a")>> \o WLit("a") \o <<TL("in"), I, I, I, T("esac"), M("]case")>>)),
             A(1, Wrap(<<T("case"), M("case[")>> \o <<T("a")>> \o WLit("a") \o <<TL("in"), NLB, I, NLB, I, NLB, T("esac"), M("]case")>>)),
             A(1, Wrap(If(<<>>))),
+            A(1, Wrap(<<TL("if"), M("if["), M("cond["), L1, M("]cond"), TL("then"), M("then["), L, M("]then"), T("fi"), M("]if")>>)),
             A(1, Wrap(If(<<TL("else"), M("else["), L, M("]else")>>))),
             A(1, Wrap(If(<<TL("elif"), M("elif["), M("cond["), L, M("]cond"), TL("then"), M("then["), L, M("]then"), M("]elif")>>))),
-            A(1, Wrap(<<TL("while"), M("while["), M("cond["), L, M("]cond"), TL("do"), M("do["), L, M("]do"), T("done"), M("]while")>>)),
+            A(1, Wrap(<<TL("while"), M("while["), M("cond["), L1, M("]cond"), TL("do"), M("do["), L, M("]do"), T("done"), M("]while")>>)),
             A(1, Wrap(<<TL("until"), M("until["), M("cond["), L, M("]cond"), TL("do"), M("do["), L, M("]do"), T("done"), M("]until")>>)),
             A(1, Wrap(<<T("for"), M("for["), T("x"), M("name:x"), T("in"), M("in["), T("a")>> \o WLit("a") \o <<M("]in"), TS(";"), M("forsemi"),
                         TL("do"), M("do["), L, M("]do"), T("done"), M("]for")>>)),
             A(1, Wrap(<<T("for"), M("for["), T("x"), M("name:x"), NLB, TL("do"), M("do["), L, M("]do"), T("done"), M("]for")>>)),
-            A(1, Wrap(<<TL("{"), M("grp["), L, T("}"), M("]grp")>>)),
-            A(1, Wrap(<<TL("("), M("sub["), L, T(")"), M("]sub")>>)) >>
+            A(1, Wrap(<<TL("{"), M("grp["), L1, T("}"), M("]grp")>>)),
+            A(1, Wrap(<<TL("("), M("sub["), L1, T(")"), M("]sub")>>)) >>
     [] nt.n = "list" ->   \* and-or lists joined by ; or &; the last one carries nt.end
          << A(0, <<SameE(nt, "ao", nt.end)>>),
             A(1, <<SameE(nt, "ao", ";"), SameE(nt, "list", nt.end)>>),
